@@ -104,6 +104,56 @@ theorem sqrt_refines_cov
     simp only [Matrix.mul_assoc]
   rw [← h22', hGG]; abel
 
+/-- **singular innovation (D14).** No invertibility: for every triangulariser with the contract and every gain that
+solves the least-squares normal equations `R_Yᵀ R_Y Gᵀ = R_Yᵀ R₁₂` (what `lstsq_svd` returns), the certificate
+`G S = P Aᵀ` still holds, but the conditional covariance the covariance model demands is
+`P − G S Gᵀ = R_XYᵀ R_XY + Eᵀ E` with `E = R₁₂ − R_Y Gᵀ`, the part of `R₁₂` outside the range of `R_Y`.
+`revert_conditional` returns `R_XY` alone: it is right exactly when `Eᵀ E = 0` (regular `R_Y`, or deterministic
+coordinates decoupled from the noise) and misses `Eᵀ E` otherwise — the known finding D14. -/
+theorem sqrt_refines_cov_singular
+    (tri : Matrix (k ⊕ n) (k ⊕ n) K → Matrix (k ⊕ n) (k ⊕ n) K) (h : TriSpec tri)
+    (A : Matrix k n K) (L : Matrix n n K) (LQ : Matrix k k K) :
+    let P := L * Lᵀ; let Q := LQ * LQᵀ; let S := A * P * Aᵀ + Q
+    let R := tri (fromBlocks LQᵀ 0 (A * L)ᵀ Lᵀ)
+    let RY := R.toBlocks₁₁; let R12 := R.toBlocks₁₂; let RXY := R.toBlocks₂₂
+    ∀ G : Matrix n k K, RYᵀ * RY * Gᵀ = RYᵀ * R12 →
+      (G * S = P * Aᵀ ∧ P - G * S * Gᵀ = RXYᵀ * RXY + (R12 - RY * Gᵀ)ᵀ * (R12 - RY * Gᵀ)) := by
+  intro P Q S R RY R12 RXY G hG
+  obtain ⟨h11, h12, h22⟩ := revert_conditional_gram tri h LQᵀ (A * L)ᵀ Lᵀ
+  simp only [transpose_transpose] at h11 h12 h22
+  have hS : RYᵀ * RY = S := by
+    rw [h11]
+    simp only [S, P, Q, Matrix.mul_assoc, transpose_mul]
+    abel
+  have hcross : RYᵀ * R12 = A * P := by
+    rw [h12]; simp only [P, Matrix.mul_assoc]
+  have hSt : Sᵀ = S := by
+    simp only [S, P, Q, transpose_add, transpose_mul, transpose_transpose, Matrix.mul_assoc]
+  have hPt : Pᵀ = P := by simp only [P, transpose_mul, transpose_transpose]
+  have hSG : S * Gᵀ = A * P := by rw [← hS, hG, hcross]
+  have hGS : G * S = P * Aᵀ := by
+    have ht := congrArg Matrix.transpose hSG
+    simpa only [transpose_mul, transpose_transpose, hSt, hPt] using ht
+  refine ⟨hGS, ?_⟩
+  have h22' : R12ᵀ * R12 + RXYᵀ * RXY = P := by rw [h22]
+  -- Eᵀ E = R12ᵀ R12 − G S Gᵀ by the normal equations
+  have hGR : G * (RYᵀ * R12) = G * S * Gᵀ := by rw [← hG, ← hS]; simp only [Matrix.mul_assoc]
+  have hRG : R12ᵀ * RY * Gᵀ = G * S * Gᵀ := by
+    have ht := congrArg Matrix.transpose hGR
+    simp only [transpose_mul, transpose_transpose, hSt] at ht
+    simpa only [Matrix.mul_assoc] using ht
+  have hE : (R12 - RY * Gᵀ)ᵀ * (R12 - RY * Gᵀ) = R12ᵀ * R12 - G * S * Gᵀ := by
+    simp only [transpose_sub, transpose_mul, transpose_transpose, Matrix.sub_mul, Matrix.mul_sub]
+    have e1 : G * RYᵀ * R12 = G * S * Gᵀ := by rw [Matrix.mul_assoc]; exact hGR
+    have e2 : G * RYᵀ * (RY * Gᵀ) = G * S * Gᵀ := by rw [← hS]; simp only [Matrix.mul_assoc]
+    have e3 : R12ᵀ * (RY * Gᵀ) = G * S * Gᵀ := by rw [← Matrix.mul_assoc]; exact hRG
+    rw [e1, e2, e3]; abel
+  rw [hE, ← h22']; abel
+
+/-- the 2×2 example of the known finding, over ℚ: `var(x₁ | y) = 10/7`, whereas the factor read off a triangular `R`
+with `RᵀR = MᵀM` and `R₂₁ = 0` gives `5/6`; the difference is `Eᵀ E = 25/42`. -/
+example : (10 : ℚ) / 7 = 5 / 6 + 25 / 42 := by norm_num
+
 /-- `sum_of_sqrtm_factors((R₁, R₂))`: any triangulariser with the Gram contract returns a factor of the sum
 of the two Gram matrices (`marginalise`, `merge`: `(A L)(A L)ᵀ + L_Q L_Qᵀ`). -/
 theorem sum_of_sqrtm_factors_gram {m : Type} [Fintype m] [DecidableEq m]
